@@ -173,6 +173,21 @@ func c04Enumerate(bin string, master uint64, tier string) ([]*spec.RunSpec, []st
 					}
 				}
 			} else {
+				// whole-datagram mutations: an inserted copy (at once, and after later datagrams
+				// have passed), removal, and a delay that reorders it behind its successors
+				lat := base.Net.LatencyUs
+				add(fmt.Sprintf("dgram%d/duplicate-at-once", gi), func(s *spec.RunSpec) {
+					s.Net.Rules = append(s.Net.Rules, spec.DgramRule{Client: g.Client, Flow: g.Scope, Dir: g.Dir, Index: g.Index, Kind: "dup", Copies: 1, ArgUs: 1})
+				})
+				add(fmt.Sprintf("dgram%d/duplicate-late", gi), func(s *spec.RunSpec) {
+					s.Net.Rules = append(s.Net.Rules, spec.DgramRule{Client: g.Client, Flow: g.Scope, Dir: g.Dir, Index: g.Index, Kind: "dup", Copies: 2, ArgUs: 3 * lat})
+				})
+				add(fmt.Sprintf("dgram%d/drop-whole", gi), func(s *spec.RunSpec) {
+					s.Net.Rules = append(s.Net.Rules, spec.DgramRule{Client: g.Client, Flow: g.Scope, Dir: g.Dir, Index: g.Index, Kind: "drop"})
+				})
+				add(fmt.Sprintf("dgram%d/reorder-late", gi), func(s *spec.RunSpec) {
+					s.Net.Rules = append(s.Net.Rules, spec.DgramRule{Client: g.Client, Flow: g.Scope, Dir: g.Dir, Index: g.Index, Kind: "delay", ArgUs: 3 * lat})
+				})
 				// replace the datagram by one recorded from another session / another user's flow
 				for _, h := range rr.Geo {
 					if (h.Sess != g.Sess || h.Scope != g.Scope) && h.Dir == g.Dir && h.Type == g.Type && h.AtUs < g.AtUs {
@@ -291,7 +306,7 @@ func addMutation(s *spec.RunSpec, transport string, g spec.SegGeo, p int64, kind
 func init() {
 	register(&propDef{
 		id: "C04", level: "fault_enumeration", quickRuns: 48, thoroughRuns: 1500, wallPerRun: 5 * time.Minute,
-		rule:        "For each traffic shape (two multiplexed sessions of one user plus a second user's session, padding on, low-entropy mode varied, TCP or UDP) a fault-free reference pass records the byte geometry of every segment from the tap; then ONE in-path mutation per run is enumerated: every segment x every field class present (nonce, encrypted metadata, metadata tag, middle padding, payload body, payload tag, end padding) x offsets (first/middle/last byte; every byte of short fields and random interior bytes in the thorough tier) x kind (bit flip, byte substitution, 1-byte insertion, 1-byte deletion, truncation) plus whole-segment swap, duplication, removal and splices from another session / another user's connection. The enumerated list is exhaustive for the stated positions of the chosen shapes; random C01/C02-style shapes with one random mutation are added on top. Oracle: TCP - bytes read are a prefix of the PRF stream; UDP - the stream completes intact within the progress bound (a corrupted datagram counts as one loss); never a differing byte; no crash.",
+		rule:        "For each traffic shape (two multiplexed sessions of one user plus a second user's session, padding on, low-entropy mode varied, TCP or UDP) a fault-free reference pass records the byte geometry of every segment from the tap; then ONE in-path mutation per run is enumerated: every segment x every field class present (nonce, encrypted metadata, metadata tag, middle padding, payload body, payload tag, end padding) x offsets (first/middle/last byte; every byte of short fields and random interior bytes in the thorough tier) x kind (bit flip, byte substitution, 1-byte insertion, 1-byte deletion, truncation) plus whole-segment swap, duplication, removal and splices from another session / another user's connection. The enumerated list is exhaustive for the stated positions of the chosen shapes; random C01/C02-style shapes with one random mutation are added on top. Oracle: TCP - bytes read are a prefix of the PRF stream; UDP - the stream completes intact within the progress bound (a corrupted datagram counts as one loss); never a differing byte; no crash. UDP splices also cross directions and flows: a datagram is replaced by an authentic earlier datagram of the SAME session that travelled the other way (same sequence number if there is one), and by a datagram of a session still in progress on another flow (a second machine of the same user, or another user); datagram rules are scoped to one flow.",
 		assumptions: []string{"one seed = one execution, so the geometry of the reference pass is valid up to the mutation point (determinism self-test)", "positions are exhaustive only for the shapes listed in the evidence file"},
 		components:  realComponents,
 		enumerate:   c04Enumerate,
